@@ -15,7 +15,7 @@ METAS = [
     {'k': 'é', 'z': [1, None, True, {'q': '\n'}]},
     {'s': '\U0001d11e', 'e': {}, 'l': []},
     {'path': 'src/main.c', 'revision': {'old': 'abc', 'new': 'def'}},
-    {'n': -5, 'big': 2147483647, 't': '\t\\"'},
+    {'n': -5, 'big': 999999999, 't': '\t\\"'},
     {'é': 'x', 'a b': [[]], 'B': False, 'a': 0},
     {'#.change:': '#..file:', 'length': 7},
     {'stats': {'insertions': 1, 'deletions': 2}, 'x\x7f': ' \x00'},
